@@ -272,7 +272,24 @@ type recovery struct {
 
 var imgSeq int
 
+// crashContinuation: operations applied to a recovered database (process-death images): the recovered
+// state must keep behaving like the reference map, also across further restarts ("start from non-initial
+// states": residue of an interrupted operation must stay inert whatever is written later).
+var crashContinuation = []Op{
+	{K: "batch", Sub: []Op{{K: "put", Key: "c", VC: "S"}}}, // a key the workload never touches: residue on a / b stays visible
+	{K: "restart"},
+	{K: "put", Key: "c", VC: "S"},
+	{K: "batch", Sub: []Op{{K: "del", Key: "c"}, {K: "put", Key: "b", VC: "S"}}},
+	{K: "restart"},
+}
+
 func recoverImage(s *Snap, cfg Cfg, keys []string, res *TaskResult) recovery {
+	return recoverImageCont(s, cfg, keys, res, nil)
+}
+
+// recoverImageCont: cont (optional) runs while the recovered database is open, after the first dump;
+// a non-empty result is reported as a failure of the recovery.
+func recoverImageCont(s *Snap, cfg Cfg, keys []string, res *TaskResult, cont func(w *World, d *Dump) string) recovery {
 	imgSeq++
 	root := filepath.Join(scratchRoot(), fmt.Sprintf("img%d", imgSeq))
 	defer os.RemoveAll(root)
@@ -300,9 +317,37 @@ func recoverImage(s *Snap, cfg Cfg, keys []string, res *TaskResult) recovery {
 	d2 := w.DumpDB()
 	if !dumpEqual(d, d2) {
 		r.Second = fmt.Sprintf("second Open differs: %s vs %s", d, d2)
+		w.Close()
+		return r
 	}
-	w.Close()
+	if cont != nil {
+		if detail := cont(w, d2); detail != "" {
+			r.Second = detail
+		}
+	}
+	if w.DB != nil && !w.Dead {
+		w.Close()
+	}
 	return r
+}
+
+// continueAfterRecovery applies crashContinuation to w (whose mapping is base) with the reference-map oracle.
+func continueAfterRecovery(w *World, base map[string]string) string {
+	w.Model = copyModel(base)
+	w.Step = 40 // values distinct from the workload's
+	for i, op := range crashContinuation {
+		ar := w.Apply(op)
+		if ar.Clause != "" || errClass(ar.Err) == "panic" {
+			return fmt.Sprintf("continuing after recovery, step %d %s: %s %s", i, op, errClass(ar.Err), ar.Detail)
+		}
+		if w.Dead || w.DB == nil {
+			return ""
+		}
+		if c, d := w.CheckReads(); c != "" {
+			return fmt.Sprintf("continuing after recovery, after step %d %s: %s (%s); model %s", i, op, d, c, modelString(w.Model))
+		}
+	}
+	return ""
 }
 
 // matchState returns the index j in [lo,hi] with dump == states[j], or -1.
